@@ -60,6 +60,8 @@ def gen_op_cases(prop: str, tier: str, seed: int, n_quick: int, n_thorough: int,
             cfg["_layout"] = rng.choice(["noncontig", "up-expanded", "up-noncontig", "all-noncontig"])
         if len(op.diff) >= 2 and rng.random() < 0.12:
             cfg["_frozen"] = rng.choice(sorted(op.diff))
+        if rng.random() < 0.2:
+            cfg["_positional"] = True
         # data MAGNITUDE: the two draws of a configuration differ in scale, not only in sign pattern
         if fn in ("rms_norm", "layer_norm") and rng.random() < 0.5:
             cfg["_mags"] = [1e-4, 1, 300, 1, 3e-3]
